@@ -141,7 +141,7 @@ def grep_forbidden(pid=None):
 
 
 # further Props modules of a property (theorems whose proofs import Props/<pid>.lean itself)
-EXTRA_PROPS = {"C10": ["C10Log"]}
+EXTRA_PROPS = {"C10": ["C10Log"], "C02": ["C02Conc"], "C08": ["C08Bridge"]}
 
 
 def audit_props(pid):
